@@ -1021,6 +1021,36 @@ def _job_extra(a):
                     label, cbs.count("onLeave"), cbs))
             if sent:
                 bad("sent-after-router-abort", "%s: sent %s after the router's ABORT" % (label, sent))
+    # ---- (7) the application overrides onDisconnect() without calling the base class: when the
+    # session ends - by transport loss, router GOODBYE or ABORT-free close - every pending request is
+    # still completed with an error
+    from autobahn.wamp import types as T
+    for ending in ("lost-unclean", "lost-clean", "router-goodbye"):
+        l1 = H.L1()
+        l1.session.ondisconnect_nobase = True
+        l1.join()
+        s = l1.session
+        l1.track("call", s.call("com.p.x", 1))
+        l1.track("publish", s.publish("com.t.x", 1, options=T.PublishOptions(acknowledge=True)))
+        l1.track("subscribe", s.subscribe(lambda *a_, **k_: None, "com.t.y"))
+        l1.track("register", s.register(lambda *a_, **k_: None, "com.p.y"))
+        l1.settle()
+        if ending == "router-goodbye":
+            exc = l1.deliver(M.Goodbye("wamp.close.system_shutdown"))
+            l1.settle()
+            if not l1.closed:
+                l1.lose(True)
+        else:
+            exc = l1.lose(ending == "lost-clean")
+        l1.settle()
+        n += 1
+        still = [lb for lb in ("call", "publish", "subscribe", "register") if l1.fstate(lb)[0] == "pending"]
+        ok_ = [lb for lb in ("call", "publish", "subscribe", "register") if l1.fstate(lb)[0] == "ok"]
+        if exc is not None:
+            bad("escape-at-end", "%s with an onDisconnect override: %r" % (ending, exc))
+        if still or ok_:
+            bad("pending-request-not-failed", "session ended by %s, the application's onDisconnect() does not call the "
+                "base class: requests still pending %s, completed ok %s" % (ending, still, ok_))
     return {"evals": n, "viol": viol, "stats": {"extra_execs": n, "nontrivial": n, "execs": n},
             "samples": [{"kind": "extra", "cases": n}]}
 
